@@ -251,6 +251,9 @@ def run(spec, tier, seed, replay=None):
 	pid = spec.ID
 	os.makedirs(EVID, exist_ok=True)
 	os.makedirs(REPLAY, exist_ok=True)
+	if not replay:
+		for stale in glob.glob(os.path.join(REPLAY, '%s-*.json' % pid)):  # replay files describe THIS run only
+			os.unlink(stale)
 	findings = load_findings()
 	known = {f['id']: f for f in findings.get('known', []) if f['property'] == pid}
 	fixed = [f for f in findings.get('fixed', []) if f['property'] == pid]
